@@ -625,7 +625,7 @@ func main() {
 	sort.Strings(pools)
 	def("syncPools", "List String", leanStrList(pools))
 	// package-level mutable state: a package variable that holds a channel / map / made container (a free list, a cache,
-	// a registry) or that some function assigns to is shared by every goroutine that enters the package, with no receiver
+	// a registry; a read-only lookup table written as a map literal does not count) or that some function assigns to, deletes from or sends on is shared by every goroutine that enters the package, with no receiver
 	// field for the access table to see (seeded change X18: a channel-based free list of datagram buffers)
 	var pkgState []string
 	for _, fl := range [][]*ast.File{mapperF, fsmF, lruF, rrF, eventF, relayF, exporterF, registryF, listenerF, lineF} {
@@ -648,11 +648,6 @@ func main() {
 						if i < len(vs.Values) {
 							if ce, ok := vs.Values[i].(*ast.CallExpr); ok {
 								if id, ok := ce.Fun.(*ast.Ident); ok && (id.Name == "make" || id.Name == "new") {
-									container = true
-								}
-							}
-							if cl, ok := vs.Values[i].(*ast.CompositeLit); ok {
-								if _, ok := cl.Type.(*ast.MapType); ok {
 									container = true
 								}
 							}
@@ -720,6 +715,16 @@ func main() {
 							if id := rootIdent(lhs); isPkgVar(id) {
 								pkgState = append(pkgState, fmt.Sprintf("%s:%s:written in %s", filepath.Base(fset.Position(st.Pos()).Filename), id.Name, fd.Name.Name))
 							}
+						}
+					case *ast.CallExpr: // delete(pkgMap, k)
+						if fn, ok := st.Fun.(*ast.Ident); ok && fn.Name == "delete" && len(st.Args) > 0 {
+							if id := rootIdent(st.Args[0]); isPkgVar(id) {
+								pkgState = append(pkgState, fmt.Sprintf("%s:%s:written in %s", filepath.Base(fset.Position(st.Pos()).Filename), id.Name, fd.Name.Name))
+							}
+						}
+					case *ast.SendStmt: // pkgChan <- v
+						if id := rootIdent(st.Chan); isPkgVar(id) {
+							pkgState = append(pkgState, fmt.Sprintf("%s:%s:written in %s", filepath.Base(fset.Position(st.Pos()).Filename), id.Name, fd.Name.Name))
 						}
 					case *ast.IncDecStmt:
 						if id := rootIdent(st.X); isPkgVar(id) {
